@@ -60,6 +60,15 @@ FRAMES = {
     "mokapot.picked_protein.picked_protein": {},
     "mokapot.picked_protein.group_without_decoys": {},
     "mokapot.picked_protein.group_with_decoys": {},
+    "mokapot.parsers.fasta._parse_fasta_files": {},
+    "mokapot.parsers.fasta.read_fasta": {
+        "HASHSEED": "iterates dictionaries / sets of protein and peptide names built from the parsed entries; the "
+                    "resulting maps are compared as sets of members (C16), their iteration order is that of the "
+                    "FASTA entries"},
+    "mokapot.parsers.pin.drop_missing_values_and_fill_spectra_dataframe": {
+        "HASHSEED": "list(set(column) - set(spectra)) orders the feature names by string hash; harmless only because "
+                    "the missing-value flags are aligned BY NAME (pd.concat) - checked across hash seeds by the "
+                    "bounded run"},
     "mokapot.parsers.fasta._group_proteins": {
         "HASHSEED": "iterates sets of protein names; the grouping as SETS is order independent (C16, bounded)"},
 }
